@@ -15,6 +15,9 @@
 
 """Python manager for transformations to be applied to TFlite models."""
 
+import json
+import os
+
 import numpy as np
 from ai_edge_quantizer import qtyping
 from ai_edge_quantizer.transformations import dequant_insert
@@ -23,6 +26,33 @@ from ai_edge_quantizer.transformations import quant_insert
 from ai_edge_quantizer.transformations import quantize_tensor
 from ai_edge_quantizer.transformations import transformation_utils
 from ai_edge_litert import schema_py_generated  # pylint: disable=g-direct-tensorflow-import
+
+
+def _verif_trace(performer, subgraph_id, instruction, tflite_model):
+  """Verification hook (off unless AI_EDGE_QUANTIZER_VERIF=1 and a trace file is set).
+
+  Appends one JSON line per applied instruction: the operator list, the graph
+  outputs and the op id maps as they are after the instruction.
+  """
+  if os.environ.get('AI_EDGE_QUANTIZER_VERIF') != '1':
+    return
+  path = os.environ.get('AI_EDGE_QUANTIZER_VERIF_TRACE')
+  if not path:
+    return
+  subgraph = tflite_model.subgraphs[subgraph_id]
+  event = {
+      'sub': subgraph_id,
+      'tr': instruction.transformation.name,
+      'ops': [
+          [[int(i) for i in op.inputs], [int(o) for o in op.outputs]]
+          for op in subgraph.operators
+      ],
+      'outs': [int(o) for o in subgraph.outputs],
+      'omap': [int(i) for i in performer._original_op_id_map[subgraph_id]],  # pylint: disable=protected-access
+      'amap': [int(i) for i in performer._added_op_id_map[subgraph_id]],  # pylint: disable=protected-access
+  }
+  with open(path, 'a') as trace_file:
+    trace_file.write(json.dumps(event) + '\n')
 
 
 class TransformationPerformer:
@@ -260,6 +290,9 @@ class TransformationPerformer:
         trans_info,
     )
     if trans_info.num_ops_added == 0:
+      _verif_trace(
+          self, transformation_inst.subgraph_id, instruction, tflite_model
+      )
       return
     # Every original op that currently sits at or after the insertion point
     # moves by the number of ops added.
@@ -273,6 +306,9 @@ class TransformationPerformer:
         transformation_inst.subgraph_id,
         first_moved_op_id,
         trans_info.num_ops_added,
+    )
+    _verif_trace(
+        self, transformation_inst.subgraph_id, instruction, tflite_model
     )
 
   def _apply_transformations(
